@@ -247,6 +247,34 @@ def run(chk, repo):
                "%s:AbstractOperatorOverloaderMeta" % cmod.relpath, "defaults __operators__='all', __without__=None",
                why="defaults must select every operator", node=sm)
 
+    # -------------------------------------------------------- C01.map-object
+    # read on the source as written (not on the normalised view: the equivalence engine treats map(f, X) and
+    # (f(c) for c in X) as the same lazy iteration, which they are - until an element raises)
+    chk.rule("C01.map-object", "the element-wise iteration of the Stream operator templates is a map object (xmap / map / "
+                               "imap), not a generator expression: when op raises for one position (1/0, 2 << -1 ..) a map "
+                               "goes on with the next position, a generator is finished by the exception")
+    import warnings as _w
+    smod_ = repo.mod("lazy_stream")
+    with _w.catch_warnings():
+        _w.simplefilter("ignore")
+        raw_ = ast.parse(smod_.src)
+    nmap = 0
+    for c_ in [n for n in ast.walk(raw_) if isinstance(n, ast.ClassDef) and n.name == "StreamMeta"]:
+        for m_ in [x for x in c_.body if isinstance(x, FuncTypes) and x.name in ("__binary__", "__rbinary__", "__unary__")]:
+            for call_ in [n for n in ast.walk(m_) if isinstance(n, ast.Call) and isinstance(n.func, ast.Name) and n.func.id == "Stream"
+                          and len(n.args) == 1]:
+                a_ = call_.args[0]
+                if isinstance(a_, (ast.GeneratorExp, ast.ListComp)) or (isinstance(a_, ast.Call) and unparse(a_.func) in (
+                        "xmap", "map", "it.imap", "imap")):
+                    nmap += 1
+                    chk.decide(isinstance(a_, ast.Call), "C01.map-object", "%s:StreamMeta.%s" % (smod_.relpath, m_.name),
+                               "Stream(%s)" % short(a_, 70),
+                               why="a generator expression ends at the first exception that escapes the operator: every "
+                                   "later position is lost, and 'scalar op Stream' stops agreeing with "
+                                   "'Stream(scalar) op Stream'", node=None)
+    if nmap == 0:
+        chk.note("C01.map-object", "%s:StreamMeta" % smod_.relpath, "templates restructured: the raw form of the mapped "
+                 "iteration was not found (decided on the view by C01.lazy-shortest only)")
     # -------------------------------------------------------- C01.lazy-shortest
     chk.rule("C01.lazy-shortest", "Stream templates: ignored classes -> NotImplemented; Iterable other -> "
                                   "Stream(map(op_func, iter(self), iter(other))) (order per template); scalar other -> "
